@@ -68,7 +68,7 @@ impl DynProp for LibFuzzer {
         let stat = |key: &str| -> Option<u64> {
             log.lines().rev().find_map(|l| {
                 let i = l.find(key)?;
-                l[i + key.len()..].trim().split(' ').next()?.parse().ok()
+                l[i + key.len()..].trim().split(|c: char| !c.is_ascii_digit()).next()?.parse().ok()
             })
         };
         let artifact = log
